@@ -15,6 +15,9 @@ def configs():
         "traffic_light/detection2d": (EvaluationTask.DETECTION2D, False, "traffic_light"),
         "traffic_light/tracking2d": (EvaluationTask.TRACKING2D, False, "traffic_light"),
         "traffic_light/classification2d": (EvaluationTask.CLASSIFICATION2D, False, "traffic_light"),
+        # the task may be given by its string value: the same tables
+        "traffic_light/classification2d,task as str": ("classification2d", False, "traffic_light"),
+        "autoware,task as str": ("detection", True, "autoware"),
     }
 
 
@@ -28,6 +31,11 @@ def check(cfg, name):
         got_name = conv.convert_name(name)
     except Exception as ex:
         return f"convert_label({name!r}) raised {type(ex).__name__}: {ex}"
+    if isinstance(task, str):
+        from perception_eval.common.evaluation_task import EvaluationTask
+        ref = LabelConverter(EvaluationTask.from_value(task), merge, prefix).convert_label(name).label
+        if got is not ref:
+            return f"with the task given as the string {task!r}, {name!r} converts to {got!r}; with the task member to {ref!r}"
     if got is not got_name:
         return f"convert_label({name!r}).label is {got!r} but convert_name gives {got_name!r}"
     for variant in (name.upper(), name.lower(), name.title()):
